@@ -21,6 +21,7 @@ import (
 type env interface {
 	name() string
 	pair(kind string) (fd int, peer peerH) // kind: "unix" | "tcp"
+	udpToClosedPort() int                  // a connected UDP socket whose remote port nobody listens on
 	epollCreate() int
 	ctl(ep, op, fd int, events uint32) string
 	wait(ep int) string // ready events, settled, sorted "fd:mask"
@@ -143,6 +144,26 @@ func (r *realEnv) pair(kind string) (int, peerH) {
 	r.track(s, "a")
 	return s, &realPeer{fd: r.track(c, "peer")}
 }
+func (r *realEnv) udpToClosedPort() int {
+	tmp, err := unix.Socket(unix.AF_INET, unix.SOCK_DGRAM, 0)
+	if err != nil {
+		panic(err)
+	}
+	if err := unix.Bind(tmp, &unix.SockaddrInet4{Addr: [4]byte{127, 0, 0, 1}}); err != nil {
+		panic(err)
+	}
+	sa, _ := unix.Getsockname(tmp)
+	_ = unix.Close(tmp) // the port is free again: nobody listens there
+	c, err := unix.Socket(unix.AF_INET, unix.SOCK_DGRAM|unix.SOCK_NONBLOCK, 0)
+	if err != nil {
+		panic(err)
+	}
+	if err := unix.Connect(c, sa); err != nil {
+		panic(err)
+	}
+	return r.track(c, "udp")
+}
+
 func (r *realEnv) epollCreate() int {
 	fd, err := unix.EpollCreate1(0)
 	if err != nil {
@@ -265,6 +286,14 @@ func (s *simEnv) pair(kind string) (int, peerH) {
 	_ = vsys.Close(l)
 	return fd, &simPeer{s: cli}
 }
+func (s *simEnv) udpToClosedPort() int {
+	s.n++
+	fd := s.k.HarnessUDP(&unix.SockaddrInet4{Addr: [4]byte{127, 0, 0, 1}, Port: 41000 + s.n}, &unix.SockaddrInet4{Addr: [4]byte{127, 0, 0, 1}, Port: 9})
+	s.k.Transfer(fd, vsys.OwnFramework)
+	s.k.UDPOf(fd).Unreach = true
+	return fd
+}
+
 func (s *simEnv) epollCreate() int { fd, _ := vsys.EpollCreate1(0); return fd }
 func (s *simEnv) ctl(ep, op, fd int, events uint32) string {
 	return errStr(0, vsys.EpollCtl(ep, op, fd, &unix.EpollEvent{Events: events, Fd: int32(fd)}))
@@ -340,6 +369,31 @@ func scripts() []script {
 		}
 	}
 	var s []script
+	s = append(s, script{"udp-connected-icmp-unreachable/lt", func(e env, log func(string, ...any)) {
+		fd := e.udpToClosedPort()
+		ep := e.epollCreate()
+		log("add %s", e.ctl(ep, unix.EPOLL_CTL_ADD, fd, in))
+		log("idle %s", e.wait(ep))
+		log("send %s", e.write(fd, 3))
+		log("after-send %s", e.wait(ep))
+		log("again %s", e.wait(ep))
+		log("read %s", e.read(fd, 100))
+		log("read-again %s", e.read(fd, 100))
+		log("quiet %s", e.wait(ep))
+		log("send2 %s", e.write(fd, 3))
+		log("send3-reports-the-error %s", e.write(fd, 3))
+		log("quiet2 %s", e.wait(ep))
+	}}, script{"udp-connected-icmp-unreachable/et", func(e env, log func(string, ...any)) {
+		fd := e.udpToClosedPort()
+		ep := e.epollCreate()
+		log("add %s", e.ctl(ep, unix.EPOLL_CTL_ADD, fd, in|out|et))
+		log("first %s", e.wait(ep))
+		log("second %s", e.wait(ep))
+		log("send %s", e.write(fd, 3))
+		log("after-send %s", e.wait(ep))
+		log("again %s", e.wait(ep))
+		log("read %s", e.read(fd, 100))
+	}})
 	s = append(s, both("et-add-writable", func(k string, e env, log func(string, ...any)) {
 		fd, _ := e.pair(k)
 		ep := e.epollCreate()
